@@ -80,7 +80,8 @@ def oracle_grad(case):
         raise Violation(f"{label}: fit_predict {np.asarray(fp).tolist()} != labels_ of an identical fit {labels.tolist()}")
     sc = call(label, "score", est.score, X, y) if y is not None else call(label, "score", est.score, X)
     base, ovo, aff = E.describe(s)
-    A = aff(np.asarray(X))  # the named function evaluated on the data as given (float32 stays float32)
+    # the named function evaluated on the data as given (float32 stays float32); a user-supplied matrix is the affinity
+    A = np.asarray(y) if y is not None else aff(np.asarray(X))
     if A is not None:
         A = np.ascontiguousarray(A, dtype=np.float64)
     Pc = np.clip(P, 1e-12, 1 - 1e-12)
